@@ -352,6 +352,53 @@ def ftWatched (fn : Ref) (casesOk : Bool) (templates : List String) : Option (Li
   | none => none
   | some w => if casesOk then some (w :: templates.map (fun n => ("ResourceTemplate", n))) else none
 
+/-! ## kr8s' class registry, as `_prepare_api_config` uses it (REPAIRED code, fix F12) -/
+
+def slashes (s : String) : Nat := (s.toList.filter (· == '/')).length
+
+/-- `kr8s.objects.get_class` does `cls_group, cls_version = cls.version.split("/")` (when there is a slash)
+    for **every** class registered in the process: does that unpacking succeed for version `v` -/
+def unpackOk (v : String) : Bool := decide (slashes v ≤ 1)
+
+/-- the `version` attributes of the classes registered so far -/
+abbrev Registry := List String
+
+/-- `get_class` returns or raises `KeyError` (handled); `false` = it raises `ValueError` -/
+def lookupOk (reg : Registry) : Bool := reg.all unpackOk
+
+inductive ApiR where
+  | prepared | permFail | raised
+  deriving DecidableEq, Repr
+
+/-- `_prepare_api_config`: required fields, the `apiVersion` shape check, `get_class` / `new_class`
+    (a `ValueError` of either is a PermFail); a new class carries `apiVersion` verbatim -/
+def prepareApi (reg : Registry) (apiVersion : String) : Registry × ApiR :=
+  if apiVersion = "" then (reg, .permFail)
+  else if slashes apiVersion > 1 then (reg, .permFail)
+  else if !lookupOk reg then (reg, .permFail)
+  else (apiVersion :: reg, .prepared)
+
+/-- the same before fix F12: nothing checked, nothing caught -/
+def prepareApiOld (reg : Registry) (apiVersion : String) : Registry × ApiR :=
+  if apiVersion = "" then (reg, .permFail)
+  else if !lookupOk reg then (reg, .raised)
+  else (apiVersion :: reg, .prepared)
+
+/-- a run of prepares in one process -/
+def prepareApiSeq (step : Registry → String → Registry × ApiR) : Registry → List String → Registry × List ApiR
+  | reg, [] => (reg, [])
+  | reg, av :: rest =>
+    let (reg', r) := step reg av
+    let (reg'', rs) := prepareApiSeq step reg' rest
+    (reg'', r :: rs)
+
+/-- `predicate_to_koreo_result`'s retry delay (REPAIRED, fix F13): a whole number or a PermFail.
+    `num` = the value in eighths when it is a number (`JVal.num8?`), `none` for anything else -/
+def retryDelay (num8 : Option Int) : Option Int :=
+  match num8 with
+  | some e => if e % 8 = 0 then some (e / 8) else none
+  | none => none
+
 /-! ## the schema gate -/
 
 inductive Ev where
